@@ -10,6 +10,9 @@ lexer contract allows and any table contents:
       * no child element whose (version-specific) listing is single-occurrence inside a Sequence/Choice occurs twice
                                                                                                     (check_multiplicity is called with the
         index list just found whenever the element already has content -- this is the call site seeded change C08-e broke)
+      * no two adjacent element children (only character data between them) are different alternatives of a Choice group
+                                                                                                    (check_element_conflict is called with the
+        index list of the previous element child)
       * if e's type is identifiable in the file version, e has a SHORT-NAME child
       * e has character data only if its type has a character-data spec
   both modes: `strict` and the file version are unchanged; the lexer invariant is kept
@@ -136,6 +139,28 @@ pub open spec fn node_ok(c: Seq<ElementContent>, t: ElementType, v: u32) -> bool
     // character data only where the type has a character-data spec
     &&& (exists|i: int| 0 <= i < c.len() && #[trigger] c[i] is CharacterData) ==> t_dt(t.typ as int).character_data is Some
 }
+// index list of an element child under type t in version v
+pub open spec fn idx_of(c: ElementContent, t: int, v: u32) -> Seq<usize> {
+    match elem_name(c) { Some(n) => match find_from(t, 0, n, v) { Some((_, p)) => p, None => Seq::empty() }, None => Seq::empty() }
+}
+pub open spec fn choice_conflict(t: int, a: Seq<usize>, b: Seq<usize>) -> bool {
+    a.len() > 0 && a != b && t_dt(common_group(t, a, b)).mode == ContentMode::Choice
+}
+// i < j are element children with only character data between them
+pub open spec fn adjacent_elems(c: Seq<ElementContent>, i: int, j: int) -> bool {
+    0 <= i < j < c.len() && elem_name(c[i]) is Some && elem_name(c[j]) is Some && forall|k: int| i < k < j ==> elem_name(#[trigger] c[k]) is None
+}
+// "two adjacent alternatives of an exclusive choice" do not occur
+pub open spec fn choice_ok(c: Seq<ElementContent>, t: ElementType, v: u32) -> bool {
+    forall|i: int, j: int| #[trigger] adjacent_elems(c, i, j) ==> !choice_conflict(t.typ as int, idx_of(c[i], t.typ as int, v), idx_of(c[j], t.typ as int, v))
+}
+// the parser's `elem_idx` is the index list of the last element child (empty before the first one)
+pub open spec fn last_elem_is(c: Seq<ElementContent>, t: int, v: u32, last: int, elem_idx: Seq<usize>) -> bool {
+    &&& -1 <= last < c.len()
+    &&& forall|k: int| last < k < c.len() ==> elem_name(#[trigger] c[k]) is None
+    &&& (last >= 0 ==> elem_name(c[last]) is Some && elem_idx == idx_of(c[last], t, v))
+    &&& (last < 0 ==> elem_idx.len() == 0)
+}
 pub open spec fn named_ok(c: Seq<ElementContent>, t: ElementType, v: u32) -> bool {
     (sn_mask(t.typ as int) matches Some(m) && m & v != 0) ==> exists|i: int| 0 <= i < c.len() && elem_name(#[trigger] c[i]) == Some(ElementName::ShortName)
 }
@@ -181,6 +206,7 @@ INV = ['lexer.inv()', 'lexer.measure() <= old(lexer).measure()', 'self.same_core
        'element.elemtype.typ < n_dt()', 'wf_tables()', 'lexer.measure() >= 0',
        'self.strict ==> node_ok(element.content@, element.elemtype, self.fileversion as u32)',
        'short_name_found ==> has_child_named(element, ElementName::ShortName)',
+       'self.strict ==> choice_ok(element.content@, element.elemtype, self.fileversion as u32) && last_elem_is(element.content@, element.elemtype.typ as int, self.fileversion as u32, last_elem, elem_idx@)',
        'elem_idx@.len() > 0 ==> idx_ok(element.elemtype.typ as int, elem_idx@)',
        'first_round || lexer.measure() < old(lexer).measure()']
 
@@ -206,13 +232,13 @@ def make_unit(repo_dir):
                 requires=['raw_element.elemtype.typ < n_dt()', 'raw_element.content@.len() == 0', 'old(lexer).inv()'],
                 ensures=['final(self).same_core(old(self))', 'final(lexer).inv()', 'final(lexer).measure() <= old(lexer).measure()',
                          'r matches Ok(e) ==> name_of(e) == raw_element.elemname && type_of(e) == raw_element.elemtype',
-                         'old(self).strict ==> (r matches Ok(e) ==> node_ok(content_of(e), raw_element.elemtype, %s) && named_ok(content_of(e), raw_element.elemtype, %s))' % (V, V)],
+                         'old(self).strict ==> (r matches Ok(e) ==> node_ok(content_of(e), raw_element.elemtype, %s) && named_ok(content_of(e), raw_element.elemtype, %s) && choice_ok(content_of(e), raw_element.elemtype, %s))' % (V, V, V)],
                 decreases='old(lexer).measure()',
                 loops={0: dict(invariant=INV, decreases='lexer.measure() + (if first_round { 1int } else { 0int })')},
-                proofs=[dict(at='body_start', text='proof { axiom_tables(); axiom_measure_nonneg(&*lexer); }\nlet ghost mut first_round = true;'),
+                proofs=[dict(at='body_start', text='proof { axiom_tables(); axiom_measure_nonneg(&*lexer); }\nlet ghost mut first_round = true;\nlet ghost mut last_elem: int = -1;'),
                         dict(after=r'let arxmlevent = self\.next\(lexer\)\?;', text='proof { first_round = false; axiom_measure_nonneg(&*lexer); }'),
                         dict(after=r'let \(sub_elemtype, idx\) = self\.find_element_in_spec_checked\(name, element\.elemtype\)\?;',
-                             text='proof { lemma_resolve_any(element.elemtype.typ as int, idx@); }\nlet ghost old_content = element.content@;\nlet ghost old_snf = short_name_found;'),
+                             text='proof { lemma_resolve_any(element.elemtype.typ as int, idx@); }\nlet ghost old_content = element.content@;\nlet ghost old_snf = short_name_found;\nlet ghost prev_idx = elem_idx@;'),
                         dict(after=r'element\.content\.push\(ElementContent::Element\(sub_element\)\);', text='''proof {
     if self.strict {
         let c = element.content@;
@@ -231,6 +257,26 @@ def make_unit(repo_dir):
             let i = choose|i: int| 0 <= i < c.len() && #[trigger] c[i] is CharacterData;
             assert(old_content[i] is CharacterData);
         }
+        // the new child's index list is the one just found; the previous element child is `last_elem`
+        let nw = c.len() - 1;
+        assert(idx_of(c[nw], t.typ as int, v) == elem_idx@);
+        assert forall|i: int, j: int| #[trigger] adjacent_elems(c, i, j) implies !choice_conflict(t.typ as int, idx_of(c[i], t.typ as int, v), idx_of(c[j], t.typ as int, v)) by {
+            if j < nw {
+                assert(c[i] == old_content[i] && c[j] == old_content[j]);
+                assert forall|k: int| i < k < j implies elem_name(#[trigger] old_content[k]) is None by { assert(c[k] == old_content[k]); }
+                assert(adjacent_elems(old_content, i, j));
+            } else {
+                // j is the new child: i must be the previous element child
+                assert(c[i] == old_content[i]);
+                if i != last_elem {
+                    if i < last_elem { assert(elem_name(c[last_elem]) is None); assert(c[last_elem] == old_content[last_elem]); }
+                    else { assert(elem_name(old_content[i]) is None); }
+                }
+                assert(idx_of(c[i], t.typ as int, v) == prev_idx);
+            }
+        }
+        last_elem = nw;
+        assert forall|k: int| last_elem < k < c.len() implies elem_name(#[trigger] c[k]) is None by {}
     }
     if short_name_found {
         if old_snf {
@@ -258,6 +304,17 @@ def make_unit(repo_dir):
     if short_name_found {
         let i = choose|i: int| 0 <= i < old_content2.len() && elem_name(#[trigger] old_content2[i]) == Some(ElementName::ShortName);
         assert(c[i] == old_content2[i]);
+    }
+    if self.strict {
+        let t = element.elemtype; let v = self.fileversion as u32;
+        assert forall|i: int, j: int| #[trigger] adjacent_elems(c, i, j) implies !choice_conflict(t.typ as int, idx_of(c[i], t.typ as int, v), idx_of(c[j], t.typ as int, v)) by {
+            assert(j < c.len() - 1);
+            assert(c[i] == old_content2[i] && c[j] == old_content2[j]);
+            assert forall|k: int| i < k < j implies elem_name(#[trigger] old_content2[k]) is None by { assert(c[k] == old_content2[k]); }
+            assert(adjacent_elems(old_content2, i, j));
+        }
+        assert forall|k: int| last_elem < k < c.len() implies elem_name(#[trigger] c[k]) is None by { if k < c.len() - 1 { assert(c[k] == old_content2[k]); } }
+        if last_elem >= 0 { assert(c[last_elem] == old_content2[last_elem]); }
     }
 }'''),
                         ])
